@@ -1170,6 +1170,11 @@ def corpus_jobs(thorough=True):
     # fixed: rvc matched `c >> reg` with the reg-by-constant pattern (821633c)
     jobs += [(key, {"k": "binopc", "op": op, "ty": "i32", "value": v, "side": sd}, 0)
              for key in ("riscv", "rvc") for op in ("<<", ">>") for sd, v in (("l", -100), ("l", 5), ("r", -1), ("r", 3), ("r", 40))]
+    # shift amounts around the 5-bit immediate field and inside the 12-bit I-type range, signed and unsigned (round-4 seed:
+    # an immediate-form pattern guarded with the I-type range selected `x >> 32` and failed in the encoder)
+    jobs += [(key, {"k": "binopc", "op": op, "ty": ty, "value": v, "side": "r"}, o)
+             for key in ("riscv", "rvc") for op in ("<<", ">>") for ty in ("i32", "u32") for v in (0, 31, 32, 33, 200, 2047, 2048)
+             for o in (0, 2)]
     return jobs
 
 
